@@ -10,12 +10,33 @@
 (* rule never changes, must be blocked by that rule (updates of one        *)
 (* resource never affect another).  inv/ret/ls/le are numbers drawn from   *)
 (* one atomic counter before a call resp. after its return.                *)
+(*                                                                         *)
+(* FIRST USE (events fu / probe / reload / release / stat; invariants       *)
+(* Enforced and StatAgrees of RuleSwitch.tla).  A round releases several   *)
+(* first requests of a never-seen resource together with rule loads for    *)
+(* that very resource; the "fu" event is recorded when all of them have    *)
+(* returned: how many were admitted / rejected and the threshold now in    *)
+(* force (-1 = no rule).  From then on everything is sequential and the    *)
+(* clock is frozen, so the spec knows exactly what the statistic of the    *)
+(* resource must show (fu.adm admitted in the window, fu.held in flight,   *)
+(* fu.blk rejected, fu.compl completed) and judges                         *)
+(*   probe : admitted iff ~Rejects(count, threshold in force), where the   *)
+(*           count is the admitted requests of the window (kind "flow"),   *)
+(*           the requests in flight (kind "iso"), or the admitted requests *)
+(*           of the REFERENCED fresh resource (kind "assoc", probe on "a"; *)
+(*           requests of the fresh resource itself are never limited);     *)
+(*           a rejection names the threshold in force;                     *)
+(*   stat  : the statistics getters of the resource's registered node show *)
+(*           exactly fu.adm / fu.blk / fu.held / fu.compl;                 *)
+(*   reload: a sequential reload puts the new threshold in force.          *)
+(* What the racing requests themselves decided is constrained only by      *)
+(* "rejected => by a threshold that was being loaded".                     *)
 (***************************************************************************)
 EXTENDS Integers, Sequences, FiniteSets, TLC, Json
 
 Trace == ndJsonDeserialize("trace.ndjson")
-VARIABLES l, g, loads, failed
-tvars == <<l, g, loads, failed>>
+VARIABLES l, g, loads, failed, fu
+tvars == <<l, g, loads, failed, fu>>
 Ev == Trace[l]
 IsEvent(op) == l <= Len(Trace) /\ Ev.op = op /\ l' = l + 1
 Mods == {"flow", "iso", "hot"}
@@ -30,8 +51,19 @@ CurrentDuring(L, k, inv, ret) ==
     /\ k \in DOMAIN L /\ L[k].ls < ret
     /\ (k + 1 \in DOMAIN L) => inv < L[k+1].le
 
+\* the admission rule of RuleSwitch.tla (operator Rejects there): a rule with threshold thr rejects when n are counted
+Rejects(n, thr) == n + 1 > thr
+NoFu == [kind |-> "", thr |-> -1, adm |-> 0, blk |-> 0, held |-> 0, compl |-> 0]
+SeqSet(s) == {s[i] : i \in DOMAIN s}
+\* expected decision of a sequential probe on the fresh resource ("res") or on the resource referring to it ("a")
+Admitted(f, on) ==
+    CASE f.kind = "flow" -> f.thr = -1 \/ ~Rejects(f.adm, f.thr)
+      [] f.kind = "iso" -> f.thr = -1 \/ ~Rejects(f.held, f.thr)
+      [] OTHER -> IF on = "a" THEN f.thr = -1 \/ ~Rejects(f.adm, f.thr) ELSE TRUE
+
 TNew ==
     /\ IsEvent("new")
+    /\ fu' = NoFu
     /\ g' = [tr |-> Ev.tr, const |-> Ev.const]
     /\ loads' = [m \in Mods |-> << >>]
     /\ failed' = FALSE
@@ -39,23 +71,60 @@ TNew ==
 TLoad ==
     /\ IsEvent("load")
     /\ loads' = [loads EXCEPT ![Ev.mod] = @ @@ (Ev.k :> [ls |-> Ev.ls, le |-> Ev.le])]
-    /\ UNCHANGED <<g, failed>>
+    /\ UNCHANGED <<g, failed, fu>>
 
 TReq ==
     /\ IsEvent("req")
-    /\ UNCHANGED <<g, loads>>
+    /\ UNCHANGED <<g, loads, fu>>
     /\ IF Ev.res \in {"f_r1", "i_r1", "p_r1"}
        THEN Judge(~Ev.pass /\ CurrentDuring(loads[ModOf(Ev.res)], Ev.marker, Ev.inv, Ev.ret),
                   [why |-> "request not decided entirely by one version current during it", req |-> Ev])
        ELSE Judge(~Ev.pass /\ Ev.marker = g.const,
                   [why |-> "decision on a resource whose rules never changed was disturbed", req |-> Ev])
 
+TFirstUse ==
+    /\ IsEvent("fu")
+    /\ UNCHANGED <<g, loads>>
+    /\ fu' = [kind |-> Ev.kind, thr |-> Ev.thr, adm |-> Ev.rpass, blk |-> Ev.rblock, held |-> Ev.rpass, compl |-> 0]
+    /\ Judge(/\ Ev.rpass + Ev.rblock = Ev.ne
+             /\ \A i \in DOMAIN Ev.rmarks : Ev.rmarks[i] \in SeqSet(Ev.loaded)
+             /\ Ev.kind = "assoc" => Ev.rblock = 0
+             /\ IF Len(Ev.loaded) = 0 THEN Ev.thr = -1 /\ Ev.rblock = 0 ELSE Ev.thr \in SeqSet(Ev.loaded),
+             [why |-> "first use: the racing first requests / rule loads of a fresh resource left no admissible rule list in force", round |-> Ev])
+
+TProbe ==
+    /\ IsEvent("probe")
+    /\ UNCHANGED <<g, loads>>
+    /\ LET exp == Admitted(fu, Ev.on) IN
+       /\ Judge(Ev.pass = exp /\ (~Ev.pass => Ev.marker = fu.thr),
+                [why |-> "first use: after quiescence the rule list in force is not enforced exactly", expected_pass |-> exp, state |-> fu, probe |-> Ev])
+       \* the abstract counters follow the observed outcome; only requests of the fresh resource are counted on it
+       /\ fu' = IF Ev.on # "res" THEN fu
+                ELSE IF Ev.pass THEN [fu EXCEPT !.adm = @ + 1, !.held = @ + 1] ELSE [fu EXCEPT !.blk = @ + 1]
+
+TReload ==
+    /\ IsEvent("reload")
+    /\ UNCHANGED <<g, loads>>
+    /\ fu' = [fu EXCEPT !.thr = Ev.thr]
+    /\ Judge(Ev.thr = Ev.want, [why |-> "first use: a sequential reload did not put the new threshold in force", reload |-> Ev])
+
+TRelease ==
+    /\ IsEvent("release")
+    /\ UNCHANGED <<g, loads, failed>>
+    /\ fu' = [fu EXCEPT !.compl = @ + fu.held, !.held = 0]
+
+TStat ==
+    /\ IsEvent("stat")
+    /\ UNCHANGED <<g, loads, fu>>
+    /\ Judge(Ev.node /\ Ev.pass = fu.adm /\ Ev.block = fu.blk /\ Ev.conc = fu.held /\ Ev.complete = fu.compl,
+             [why |-> "first use: the statistics getters of the resource disagree with the requests made on it", expected |-> fu, got |-> Ev])
+
 TEnd ==
     /\ IsEvent("end")
-    /\ UNCHANGED <<g, loads>>
+    /\ UNCHANGED <<g, loads, fu>>
     /\ Judge(Ev.panics = 0, [why |-> "a panic escaped a public API call", panics |-> Ev.panics])
 
-TInit == l = 1 /\ g = [tr |-> 0, const |-> 0] /\ loads = [m \in Mods |-> << >>] /\ failed = FALSE
-TNext == TNew \/ TLoad \/ TReq \/ TEnd
+TInit == l = 1 /\ g = [tr |-> 0, const |-> 0] /\ loads = [m \in Mods |-> << >>] /\ failed = FALSE /\ fu = NoFu
+TNext == TNew \/ TLoad \/ TReq \/ TEnd \/ TFirstUse \/ TProbe \/ TReload \/ TRelease \/ TStat
 TSpec == TInit /\ [][TNext]_tvars
 =============================================================================
